@@ -17,6 +17,7 @@ def cfg : Cfg :=
     delSuffix := Gen.C14.delSuffix
     delCut := Gen.C14.delCut
     absPrefix := Gen.C14.absPrefix
+    filterExact := Gen.C14.filterExact
     linkGoneEnoent := Gen.C14.linkGoneEnoent
     linkGoneEsrch := Gen.C14.linkGoneEsrch
     infoGoneEnoent := Gen.C14.infoGoneEnoent
